@@ -1,7 +1,7 @@
 SPECIFICATION Spec
 CONSTANTS
     LeafNames = {"a", "b"}
-    UserTimes <- MCUserTimes
+    UserTimes <- MCUserTimesQ
     MaxDepth = 2
     TimeChoices <- MCTimeChoices
     MaxOps = 2
